@@ -267,7 +267,9 @@ impl Net {
     }
 
     /// extra in-flight time for a message that matches a watch (the watcher is notified now)
-    fn directed_delay(&self, chan: u64, cmd: &[Vec<u8>]) -> u64 {
+    fn directed_delay(&self, chan: u64, src: &str, dst: &str, cmd: &[Vec<u8>]) -> u64 {
+        let host = |x: &str| x.trim_start_matches("proxy:").split(':').next().unwrap_or("").to_string();
+        let local = src.starts_with("proxy:") && host(src) == host(dst);
         let mut g = self.inner.lock();
         if g.watches.is_empty() || cmd.is_empty() {
             return 0;
@@ -277,7 +279,7 @@ impl Net {
         let mut extra = 0;
         let mut fired = false;
         for w in g.watches.iter_mut() {
-            if w.uses_left > 0 && cmd[0].eq_ignore_ascii_case(w.cmd.as_bytes()) {
+            if w.uses_left > 0 && cmd[0].eq_ignore_ascii_case(w.cmd.as_bytes()) && (local || !w.only_local) {
                 w.uses_left -= 1;
                 extra = extra.max(hash3(seed ^ 0xd1ec7ed, chan, seq) % (w.extra_ms_max + 1));
                 if let (Some(tx), Some(key)) = (w.notify.as_ref(), cmd.get(1)) {
@@ -459,6 +461,8 @@ pub struct Watch {
     pub cmd: String,
     pub uses_left: u32,
     pub extra_ms_max: u64,
+    /// only messages a proxy sends to a Redis node on its own host (on-demand pulls, forwarded commands)
+    pub only_local: bool,
     pub notify: Option<mpsc::UnboundedSender<Vec<u8>>>,
 }
 
@@ -519,7 +523,7 @@ fn exec_at(net: &Net, ep: &Endpoint, dst: &str, chan: u64, conn_id: u64, cmd: &[
 async fn deliverer(net: Net, ep: Endpoint, ep_gen: u64, chan: u64, conn_id: u64, src: String, dst: String, mut rx: mpsc::UnboundedReceiver<Req>, mid: mpsc::UnboundedSender<Mid>) {
     let mut last = Instant::now();
     while let Some(req) = rx.next().await {
-        let lat = net.latency(chan) + net.directed_delay(chan, &req.cmd);
+        let lat = net.latency(chan) + net.directed_delay(chan, &src, &dst, &req.cmd);
         let mut at = req.sent_at + Duration::from_millis(lat);
         if at < last {
             at = last;
